@@ -196,3 +196,10 @@ func verifIteInt(c bool, a, b int) int {
 	return b
 }
 func verifFloatBits(f float64) uint64 { return math.Float64bits(f) }
+
+func verifIteFloat(c bool, a, b float64) float64 {
+	if c {
+		return a
+	}
+	return b
+}
